@@ -3,34 +3,17 @@
   refresh_token grants, handler by handler in the registration order of `ComposeAllEnabled`
   (explicit → refresh → … → OIDC explicit → OIDC refresh → PKCE).
 -/
-import Fosite.Model.Prog
+import Fosite.Model.HP
 import Fosite.Model.Audience
 namespace Fosite.Model
-
-/-- what an endpoint call returns to the caller -/
-inductive Out
-  | ok
-  | err (e : Err)
-  | authz (code : Option Nat) (atk : Option Nat) (idToken : Bool)
-  | tokens (atk : Nat) (rt : Option Nat) (idToken : Bool) (expiresIn : Int) (scopes : List String)
-  | active (use : String) (r : Req)
-  | inactive (e : Err)
-  deriving Repr, Inhabited
-
-/-- `storage` result as `errors.Is` sees it -/
-def Res.errKind : Res → Option Err
-  | .notFound => some .not_found
-  | .inactive _ => some .token_inactive
-  | .fail e => some e
-  | _ => none
 
 /-- `DefaultClientAuthenticationStrategy` for a plain `DefaultClient` whose credentials arrive by
     HTTP Basic or in the body: `credOk` is the outcome of the bcrypt comparison against the
     current and rotated secrets (a parameter, assumption `bcrypt_sound`). -/
-def authenticate (clientId : String) (credOk : Bool) : Prog (Except Err Client) := do
-  match ← call (.getClient clientId) with
-  | .client c => if c.isPublic || credOk then return .ok c else return .error .invalid_client
-  | _ => return .error .invalid_client
+def authenticate (clientId : String) (credOk : Bool) : HP Client := do
+  let c ← expectClient (.getClient clientId) .invalid_client
+  HP.guard (c.isPublic || credOk) .invalid_client
+  return c
 
 /-- S256 is an abstract injective transform (assumption: SHA-256 collision resistance). -/
 def s256 (v : String) : String := "H(" ++ v ++ ")"
@@ -65,24 +48,25 @@ def pkceVerify (cfg : Config) (challenge method verifier : String) : Option Err 
     if s256 verifier != challenge then some .invalid_grant else none
   else if verifier != challenge then some .invalid_grant else none
 
+def optErr : Option Err → HP Unit
+  | none => HP.ok ()
+  | some e => HP.fail e
+
 /-- `pkce.Handler.HandleTokenEndpointRequest` -/
-def pkceHandle (cfg : Config) (code : Presented) (verifier : String) (client : Client) : Prog (Option Err) := do
-  match ← call (.getPKCE code.sig) with
+def pkceHandle (cfg : Config) (code : Presented) (verifier : String) (client : Client) : HP Unit := do
+  match ← callH (.getPKCE code.sig) with
   | .req pr =>
-    match (← call (.deletePKCE code.sig)).errKind with
-    | some _ => return some .server_error
-    | none =>
-      let challenge := pr.formGet "code_challenge"
-      let method := pr.formGet "code_challenge_method"
-      match pkceValidate cfg challenge method pr.client.isPublic with
-      | some e => return some e
-      | none => return pkceVerify cfg challenge method verifier
+    expectOk (.deletePKCE code.sig) (fun _ => retErr .server_error)
+    let challenge := pr.formGet "code_challenge"
+    let method := pr.formGet "code_challenge_method"
+    optErr (pkceValidate cfg challenge method pr.client.isPublic)
+    optErr (pkceVerify cfg challenge method verifier)
   | r =>
     match r.errKind with
     | some .not_found =>
-      if verifier.length == 0 then return validateNoPKCE cfg client.isPublic
-      else return some .invalid_grant
-    | _ => return some .server_error
+      if verifier.length == 0 then optErr (validateNoPKCE cfg client.isPublic)
+      else HP.fail .invalid_grant
+    | _ => HP.fail .server_error
 
 structure RedeemReq where
   clientId : String
@@ -107,95 +91,89 @@ def expiredAt (exp : Option Time) (requestedAt : Time) (life : Dur) (now : Time)
   | none => addDur requestedAt life < now
   | some e => e < now
 
-def rollbackOnErr (e : Err) : Prog Out := do
+/-- the deferred rollback of the issuing transaction: the original error, unless rollback fails too -/
+def rollbackThen (e : Err) : Prog Err := do
   match (← call .rollbackTx).errKind with
-  | some _ => return .err .server_error
-  | none => return .err e
+  | some _ => return .server_error
+  | none => return e
 
 /-- ID-token issuance conditions at the token endpoint (`OpenIDConnectExplicitHandler.
     PopulateTokenEndpointResponse`); the claim-level checks of `GenerateIDToken` are the subject of
-    C14 and assumed satisfied by the session the harness supplies. -/
-def oidcExplicitPopulate (code : Presented) (client : Client) : Prog (Except Err Bool) := do
-  match ← call (.getOIDC (if code.exact then code.sig else none)) with
+    C14 and assumed satisfied by the session the harness supplies. Returns whether an ID token is issued. -/
+def oidcExplicitPopulate (code : Presented) (client : Client) : HP Bool := do
+  let key := if code.exact then code.sig else none
+  match ← callH (.getOIDC key) with
   | .req ar =>
-    if !ar.grantedScopes.contains "openid" then return .error .misconfiguration
-    else if !client.grants.contains "authorization_code" then return .error .unauthorized_client
-    else if ar.sess.subject == "" then return .error .server_error
-    else
-      match (← call (.deleteOIDC (if code.exact then code.sig else none))).errKind with
-      | some _ => return .error .server_error
-      | none => return .ok true
+    HP.guard (ar.grantedScopes.contains "openid") .misconfiguration
+    HP.guard (client.grants.contains "authorization_code") .unauthorized_client
+    HP.guard (ar.sess.subject != "") .server_error
+    expectOk (.deleteOIDC key) (fun _ => retErr .server_error)
+    return true
   | r =>
     match r.errKind with
-    | some .not_found => return .ok false
-    | _ => return .error .server_error
+    | some .not_found => return false
+    | _ => HP.fail .server_error
 
-/-- `grant_type=authorization_code` -/
-def redeemProg (cfg : Config) (now : Time) (q : RedeemReq) : Prog Out := do
-  let _ ← call .newId
-  match ← authenticate q.clientId q.credOk with
-  | .error e => return .err e
-  | .ok client =>
-  -- AuthorizeExplicitGrantHandler.HandleTokenEndpointRequest
-  if !client.grants.contains "authorization_code" then return .err .unauthorized_client
-  match ← call (.getCode q.code.sig) with
-  | .inactive ar =>
+def expiresIn (sess : Sess) (now : Time) (atLife : Dur) : Int :=
+  match sess.expAccess with
+  | some e => (Int.ofNat e - Int.ofNat now) / 1000000000
+  | none => atLife / 1000000000
+
+/-- session adoption + expiry stamping at the end of both `HandleTokenEndpointRequest`s -/
+def stampSession (cfg : Config) (now : Time) (s : Sess) : Sess :=
+  { s with
+    expAccess := some (roundSecond (addDur now cfg.atLife)),
+    expRefresh := if cfg.rtLife > -1 then some (roundSecond (addDur now cfg.rtLife)) else s.expRefresh }
+
+/-- the request object the code handler stores for the new tokens -/
+def redeemStoreReq (cfg : Config) (now : Time) (q : RedeemReq) (client : Client) (ar ar2 : Req) : Req :=
+  { id := ar.id, client := client, requestedAt := now,
+    reqScopes := appendAllUniq [] ar.reqScopes, reqAud := appendAllUniq [] ar.reqAud,
+    grantedScopes := appendAllUniq [] ar2.grantedScopes,
+    grantedAud := appendAllUniq [] ar2.grantedAud,
+    form := q.form, sess := stampSession cfg now ar.sess }
+
+/-- error path of the first code lookup: replay branch and storage errors -/
+def redeemLookupFailed : Res → Prog Err
+  | .inactive ar => do
+    -- the code was used before: revoke everything issued for this authorization
     let _ ← call (.revokeAccess ar.id)
     let _ ← call (.revokeRefresh ar.id)
-    return .err .invalid_grant
-  | .req ar =>
-    if !q.code.exact then return .err .invalid_grant        -- ValidateAuthorizeCode: MAC
-    if ar.client.id != client.id then return .err .invalid_grant
-    let forced := ar.formGet "redirect_uri"
-    if forced != "" && forced != q.redirect then return .err .invalid_grant
-    let sess : Sess := { ar.sess with
-      expAccess := some (roundSecond (addDur now cfg.atLife)),
-      expRefresh := if cfg.rtLife > -1 then some (roundSecond (addDur now cfg.rtLife)) else ar.sess.expRefresh }
-    -- pkce.Handler.HandleTokenEndpointRequest
-    match ← pkceHandle cfg q.code q.verifier client with
-    | some e => return .err e
-    | none =>
-    -- AuthorizeExplicitGrantHandler.PopulateTokenEndpointResponse
-    match ← call (.getCode q.code.sig) with
-    | .req ar2 =>
-      if expiredAt sess.expCode now cfg.codeLife now then return .err .invalid_request
-      let req : Req := { id := ar.id, client := client, requestedAt := now,
-                         reqScopes := appendAllUniq [] ar.reqScopes, reqAud := appendAllUniq [] ar.reqAud,
-                         grantedScopes := appendAllUniq [] ar2.grantedScopes,
-                         grantedAud := appendAllUniq [] ar2.grantedAud,
-                         form := q.form, sess := sess }
-      let wantRT := canIssueRefresh cfg ar2
-      match (← call .beginTx).errKind with
-      | some _ => return .err .server_error
-      | none =>
-      match (← call (.invalidateCode q.code.sig)).errKind with
-      | some _ => rollbackOnErr .server_error
-      | none =>
-      match ← call (.createAccess (req.sanitize [])) with
-      | .nat atk =>
-        let finish (rt : Option Nat) : Prog Out := do
-          match (← call .commitTx).errKind with
-          | some _ => rollbackOnErr .server_error
-          | none =>
-            -- OpenIDConnectExplicitHandler.PopulateTokenEndpointResponse
-            match ← oidcExplicitPopulate q.code client with
-            | .error e => return .err e
-            | .ok idt =>
-              let expIn : Int := match sess.expAccess with
-                | some e => (Int.ofNat e - Int.ofNat now) / 1000000000
-                | none => cfg.atLife / 1000000000
-              return .tokens atk rt idt expIn req.grantedScopes
-        if wantRT then
-          match ← call (.createRefresh atk (req.sanitize [])) with
-          | .nat rt => finish (some rt)
-          | _ => rollbackOnErr .server_error
-        else finish none
-      | _ => rollbackOnErr .server_error
-    | _ => return .err .server_error
-  | r =>
-    match r.errKind with
-    | some .not_found => return .err .invalid_grant
-    | _ => return .err .server_error
+    return .invalid_grant
+  | r => match r.errKind with
+    | some .not_found => retErr .invalid_grant
+    | _ => retErr .server_error
+
+/-- `grant_type=authorization_code` -/
+def redeemH (cfg : Config) (now : Time) (q : RedeemReq) : HP Out := do
+  let _ ← callH .newId
+  let client ← authenticate q.clientId q.credOk
+  -- AuthorizeExplicitGrantHandler.HandleTokenEndpointRequest
+  HP.guard (client.grants.contains "authorization_code") .unauthorized_client
+  let ar ← expectReq (.getCode q.code.sig) redeemLookupFailed
+  HP.guard q.code.exact .invalid_grant        -- ValidateAuthorizeCode: MAC
+  HP.guard (ar.client.id == client.id) .invalid_grant
+  let forced := ar.formGet "redirect_uri"
+  HP.guard (!(forced != "" && forced != q.redirect)) .invalid_grant
+  -- pkce.Handler.HandleTokenEndpointRequest
+  pkceHandle cfg q.code q.verifier client
+  -- AuthorizeExplicitGrantHandler.PopulateTokenEndpointResponse
+  let ar2 ← expectReq (.getCode q.code.sig) (fun _ => retErr .server_error)
+  HP.guard (!expiredAt ar.sess.expCode now cfg.codeLife now) .invalid_request
+  let req := redeemStoreReq cfg now q client ar ar2
+  expectOk .beginTx (fun _ => retErr .server_error)
+  expectOk (.invalidateCode q.code.sig) (fun _ => rollbackThen .server_error)
+  let atk ← expectNat (.createAccess (req.sanitize [])) (fun _ => rollbackThen .server_error)
+  let rt ← if canIssueRefresh cfg ar2 then
+      (do let n ← expectNat (.createRefresh atk (req.sanitize [])) (fun _ => rollbackThen .server_error)
+          return some n : HP (Option Nat))
+    else HP.ok none
+  expectOk .commitTx (fun _ => rollbackThen .server_error)
+  -- OpenIDConnectExplicitHandler.PopulateTokenEndpointResponse
+  let idt ← oidcExplicitPopulate q.code client
+  return .tokens atk rt idt (expiresIn req.sess now cfg.atLife) req.grantedScopes
+
+def redeemProg (cfg : Config) (now : Time) (q : RedeemReq) : Prog Out := (redeemH cfg now q).run
 
 structure RefreshReq where
   clientId : String
@@ -207,102 +185,80 @@ structure RefreshReq where
   deriving Repr, Inhabited
 
 /-- `handleRefreshTokenEndpointStorageError` -/
-def refreshStorageError (e : Err) : Prog Out := do
+def refreshStorageError (e : Err) : Prog Err := do
   let mapped : Err := match e with
     | .serialization_failure => .invalid_request
     | .not_found => .invalid_request
     | .token_inactive => .invalid_request
     | _ => .server_error
   match (← call .rollbackTx).errKind with
-  | some _ => return .err .server_error
-  | none => return .err mapped
+  | some _ => return .server_error
+  | none => return mapped
 
-/-- `handleRefreshTokenReuse` followed by the `invalid_grant` answer -/
-def refreshReuse (sig : Option Nat) (rid : Nat) : Prog Out := do
+/-- `handleRefreshTokenReuse`, then the `invalid_grant` answer -/
+def refreshReuse (sig : Option Nat) (rid : Nat) : Prog Err := do
   match (← call .beginTx).errKind with
-  | some _ => return .err .server_error
+  | some _ => return .server_error
   | none =>
   match (← call (.deleteRefresh sig)).errKind with
   | some e => refreshStorageError e
   | none =>
-  match (← call (.revokeRefresh rid)).errKind with
-  | some e => if e != .not_found then refreshStorageError e else
-      match (← call (.revokeAccess rid)).errKind with
-      | some e => if e != .not_found then refreshStorageError e else
-          match (← call .commitTx).errKind with
-          | some e => refreshStorageError e
-          | none => return .err .invalid_grant
-      | none =>
-        match (← call .commitTx).errKind with
-        | some e => refreshStorageError e
-        | none => return .err .invalid_grant
-  | none =>
-    match (← call (.revokeAccess rid)).errKind with
-    | some e => if e != .not_found then refreshStorageError e else
-        match (← call .commitTx).errKind with
-        | some e => refreshStorageError e
-        | none => return .err .invalid_grant
-    | none =>
-      match (← call .commitTx).errKind with
-      | some e => refreshStorageError e
-      | none => return .err .invalid_grant
+  let r1 := (← call (.revokeRefresh rid)).errKind
+  if r1.isSome && r1 != some .not_found then refreshStorageError (r1.getD .generic) else
+  let r2 := (← call (.revokeAccess rid)).errKind
+  if r2.isSome && r2 != some .not_found then refreshStorageError (r2.getD .generic) else
+  match (← call .commitTx).errKind with
+  | some e => refreshStorageError e
+  | none => return .invalid_grant
+
+def refreshStoreReq (cfg : Config) (now : Time) (q : RefreshReq) (client : Client) (orig : Req) : Req :=
+  { id := orig.id, client := client, requestedAt := now,
+    reqScopes := appendAllUniq [] orig.reqScopes, reqAud := appendAllUniq [] orig.reqAud,
+    grantedScopes := appendAllUniq [] orig.grantedScopes,
+    grantedAud := appendAllUniq [] orig.grantedAud,
+    form := q.form, sess := stampSession cfg now orig.sess }
+
+def refreshExpired (orig : Req) (now : Time) : Bool :=
+  match orig.sess.expRefresh with
+  | some e => decide (e < now)
+  | none => false
+
+def scopesStillAllowed (cfg : Config) (client : Client) (granted : List String) : Bool :=
+  granted.all (fun s => cfg.scopeStrategy.run (client.scopes.map String.toList) s.toList)
+
+/-- error path of the refresh-token lookup: reuse detection and storage errors -/
+def refreshLookupFailed (sig : Option Nat) : Res → Prog Err
+  | .inactive orig => refreshReuse sig orig.id
+  | r => match r.errKind with
+    | some .not_found => retErr .invalid_grant
+    | _ => retErr .server_error
 
 /-- `grant_type=refresh_token` -/
-def refreshProg (cfg : Config) (now : Time) (q : RefreshReq) : Prog Out := do
-  let _ ← call .newId
-  match ← authenticate q.clientId q.credOk with
-  | .error e => return .err e
-  | .ok client =>
-  if !client.grants.contains "refresh_token" then return .err .unauthorized_client
-  match ← call (.getRefresh q.token.sig) with
-  | .inactive orig => refreshReuse q.token.sig orig.id
-  | .req orig =>
-    -- ValidateRefreshToken: expiry (only when the session carries one), then MAC
-    if (match orig.sess.expRefresh with | some e => decide (e < now) | none => false) then return .err .invalid_grant
-    if !q.token.exact then return .err .invalid_request
-    if !(cfg.refreshScopes.isEmpty || hasOneOf orig.grantedScopes cfg.refreshScopes) then return .err .scope_not_granted
-    if orig.client.id != client.id then return .err .invalid_grant
-    -- every originally granted scope must still be allowed for the *current* registration
-    if !(orig.grantedScopes.all (fun s => cfg.scopeStrategy.run (client.scopes.map String.toList) s.toList)) then
-      return .err .invalid_scope
-    match audienceMatch cfg.audStrategy client.audience orig.grantedAud with
-    | some e => return .err e
-    | none =>
-    let sess : Sess := { orig.sess with
-      expAccess := some (roundSecond (addDur now cfg.atLife)),
-      expRefresh := if cfg.rtLife > -1 then some (roundSecond (addDur now cfg.rtLife)) else orig.sess.expRefresh }
-    let req : Req := { id := orig.id, client := client, requestedAt := now,
-                       reqScopes := appendAllUniq [] orig.reqScopes, reqAud := appendAllUniq [] orig.reqAud,
-                       grantedScopes := appendAllUniq [] orig.grantedScopes,
-                       grantedAud := appendAllUniq [] orig.grantedAud,
-                       form := q.form, sess := sess }
-    -- RefreshTokenGrantHandler.PopulateTokenEndpointResponse
-    match (← call .beginTx).errKind with
-    | some _ => return .err .server_error
-    | none =>
-    match (← call (.rotateRefresh req.id q.token.sig)).errKind with
-    | some e => refreshStorageError e
-    | none =>
-    match ← call (.createAccess (req.sanitize [])) with
-    | .nat atk =>
-      match ← call (.createRefresh atk (req.sanitize [])) with
-      | .nat rt =>
-        match (← call .commitTx).errKind with
-        | some e => refreshStorageError e
-        | none =>
-          -- OpenIDConnectRefreshHandler
-          let expIn : Int := match sess.expAccess with
-            | some e => (Int.ofNat e - Int.ofNat now) / 1000000000
-            | none => cfg.atLife / 1000000000
-          if req.grantedScopes.contains "openid" then
-            if req.sess.subject == "" then return .err .server_error
-            else return .tokens atk (some rt) true expIn req.grantedScopes
-          else return .tokens atk (some rt) false expIn req.grantedScopes
-      | r => refreshStorageError (r.errKind.getD .generic)
-    | r => refreshStorageError (r.errKind.getD .generic)
-  | r =>
-    match r.errKind with
-    | some .not_found => return .err .invalid_grant
-    | _ => return .err .server_error
+def refreshH (cfg : Config) (now : Time) (q : RefreshReq) : HP Out := do
+  let _ ← callH .newId
+  let client ← authenticate q.clientId q.credOk
+  HP.guard (client.grants.contains "refresh_token") .unauthorized_client
+  let orig ← expectReq (.getRefresh q.token.sig) (refreshLookupFailed q.token.sig)
+  -- ValidateRefreshToken: expiry (only when the session carries one), then MAC
+  HP.guard (!refreshExpired orig now) .invalid_grant
+  HP.guard q.token.exact .invalid_request
+  HP.guard (cfg.refreshScopes.isEmpty || hasOneOf orig.grantedScopes cfg.refreshScopes) .scope_not_granted
+  HP.guard (orig.client.id == client.id) .invalid_grant
+  -- every originally granted scope / audience must still be allowed for the *current* registration
+  HP.guard (scopesStillAllowed cfg client orig.grantedScopes) .invalid_scope
+  optErr (audienceMatch cfg.audStrategy client.audience orig.grantedAud)
+  let req := refreshStoreReq cfg now q client orig
+  -- RefreshTokenGrantHandler.PopulateTokenEndpointResponse
+  expectOk .beginTx (fun _ => retErr .server_error)
+  expectOk (.rotateRefresh req.id q.token.sig) refreshStorageError
+  let atk ← expectNat (.createAccess (req.sanitize [])) (fun r => refreshStorageError (r.errKind.getD .generic))
+  let rt ← expectNat (.createRefresh atk (req.sanitize [])) (fun r => refreshStorageError (r.errKind.getD .generic))
+  expectOk .commitTx refreshStorageError
+  -- OpenIDConnectRefreshHandler
+  let idt := req.grantedScopes.contains "openid"
+  HP.guard (!(idt && req.sess.subject == "")) .server_error
+  return .tokens atk (some rt) idt (expiresIn req.sess now cfg.atLife) req.grantedScopes
+
+def refreshProg (cfg : Config) (now : Time) (q : RefreshReq) : Prog Out := (refreshH cfg now q).run
 
 end Fosite.Model
